@@ -11,7 +11,12 @@ TOL = 1e-6
 PRIORS = {'none': (), 'success': (['valid'],), 'rejected@.5T': (['exc@.5T'],), 'exhausted': (['drop'] * 4,),
           'fragment+valid': (['frag2@.4T'],), 'late-answer': (['valid@1.5T', 'drop', 'drop', 'drop'],),
           'garbage': (['garbage', 'valid'],), 'rejected,success': (['exc@.9T'], ['valid']),
-          'timeout+rejected': (['drop', 'exc2'],), 'timeout+icmp': (['drop', 'icmp'],), 'timeout+success': (['drop', 'valid'],)}
+          'timeout+rejected': (['drop', 'exc2'],), 'timeout+icmp': (['drop', 'icmp'],), 'timeout+success': (['drop', 'valid'],),
+          # (TCP) the earlier request lost its transmission(s) and could not re-establish the connection
+          'drop+reconnect-refused': (dict(tx=['drop'] * 4, conn=['ok'] + ['refused'] * 4),),
+          'drop+reconnect-unreachable': (dict(tx=['drop'] * 4, conn=['ok'] + ['unreachable'] * 4),),
+          'drop+reconnect-hang': (dict(tx=['drop'] * 4, conn=['ok'] + ['hang'] * 4),),
+          'connect-unreachable': (dict(tx=['drop'] * 4, conn=['unreachable'] * 4),)}
 
 
 def prior_of(name):
@@ -213,8 +218,9 @@ def run(tier, seed, rep):
     # non-initial states
     for tr in ('udp', 'tcp'):
         for ka in (False, True):
-            for prior in (PRIORS if tier == 'thorough' else ('success', 'rejected@.5T', 'late-answer', 'fragment+valid', 'timeout+rejected')):
-                if prior == 'none':
+            for prior in (PRIORS if tier == 'thorough' else ('success', 'rejected@.5T', 'late-answer', 'fragment+valid', 'timeout+rejected',
+                                                              'drop+reconnect-refused', 'drop+reconnect-unreachable', 'drop+reconnect-hang', 'connect-unreachable')):
+                if prior == 'none' or (tr == 'udp' and 'connect' in prior):
                     continue
                 cfg = dict(transport=tr, ka=ka, T=1, R=1, cmd='read', prior=prior)
                 jobs.append((cfg, 'product', 2, alphabet(tr), ['ok'], None))
